@@ -10,6 +10,7 @@
 import JSV.Proofs.InfEqns
 import JSV.Proofs.InfEmbCons
 import JSV.Proofs.InfEmbDom
+import JSV.Proofs.InfEmbWalk
 namespace JSV.C16
 open JSV Go EncJson
 
@@ -652,7 +653,8 @@ example (tI tX tY : String) (hX : Parses "X" tX { name := "x" } "x") (hY : Parse
 /-! ### `visibleFields` against reflect's walker
 
   `visibleFields` (the specification: the shallowest field of a name, if it is alone at its depth) and
-  `visibleFieldsWalk` (reflect's implementation: `byName`, cleared names) give the same fields in the same order on
+  `visibleFieldsWalk` (reflect's implementation: `byName`, cleared names) give the same fields in the same order
+  (`visibleFieldsWalk_eq` below, for every tree); evaluated on
   trees with promotion, shadowing, equal-depth ambiguity, three-way conflicts, a deeper field met before a shallower
   one, a cancelled pair followed by deeper and shallower fields, and a hidden anonymous field whose fields are still
   walked.  (No tag is parsed here, so the examples are closed terms.) -/
@@ -675,6 +677,17 @@ def walkExamples : List (List (FieldE GoTypeE)) :=
 
 example : walkExamples.all (fun fs => (visibleFields fs).map (·.index) == (visibleFieldsWalk fs).map (·.index)) = true := by
   decide
+
+/-- **reflect's walker computes the visible fields**: the algorithm of `reflect.VisibleFields` (`visibleFieldsWalk`:
+    per name the entry that currently wins, `byName`; an entry that loses, or that meets another field of its name at
+    its own depth, has its name cleared; the cleared entries are dropped at the end) returns exactly the fields that the
+    declarative `visibleFields` keeps (the shallowest field of a name, if it is alone at its depth), in the same order —
+    on every struct tree: no hypothesis on the names is needed.  (Helper lemmas: JSV/Proofs/InfEmbWalk.lean; what makes
+    the walker right although it only ever looks at the *last* entry of a name: the entries of one name are strictly
+    decreasing in depth and all but the last are cleared; the indices of the walk are pairwise distinct.)  The type
+    language has no recursive embedding (`type T struct { *T }`), so the walker's `visiting` set has no counterpart. -/
+theorem visibleFieldsWalk_eq (fields : List (FieldE GoTypeE)) : visibleFieldsWalk fields = visibleFields fields :=
+  visibleFieldsWalk_eq_visibleFields fields
 
 /-- e.g. the last one: the anonymous `B` of depth 2 is hidden by the `B` of depth 1, its field `Y` is promoted all the same -/
 example : (visibleFields [we "A" [we "B" [wf "Y"]], we "B" [wf "Z"]]).map (fun f => (f.goName, f.index)) =
